@@ -24,6 +24,7 @@ import (
 	"strconv"
 	"strings"
 	"sync"
+	"syscall"
 	"time"
 )
 
@@ -119,7 +120,13 @@ type leg struct {
 	Prop      string  `json:"prop"`       // scenario family run by this leg (default: the property id itself)
 	Procs     int     `json:"procs"`      // GOMAXPROCS per worker (0 = 1)
 	Workers   int     `json:"workers"`    // 0 = all cores
+	// Closed: nothing outside the goroutines under test can unblock them (no device, no clock):
+	// a run found with all of them blocked is a deadlock, not a slow machine
+	Closed bool `json:"closed"`
 }
+
+// curLegClosed is the Closed flag of the leg whose workers are running (legs run one after another).
+var curLegClosed bool
 
 type replayFile struct {
 	Property  string          `json:"property"`
@@ -448,7 +455,13 @@ func runWorker(bin, id, tier string, seed uint64, from, to, step int, budget tim
 						wmu.Lock()
 						killedByWatchdog = true
 						wmu.Unlock()
-						_ = cmd.Process.Kill()
+						// ask for a goroutine dump first (the Go runtime prints one on SIGQUIT)
+						_ = cmd.Process.Signal(syscall.SIGQUIT)
+						select {
+						case <-watch:
+						case <-time.After(10 * time.Second):
+							_ = cmd.Process.Kill()
+						}
 
 						return
 					}
@@ -496,6 +509,20 @@ func runWorker(bin, id, tier string, seed uint64, from, to, step int, budget tim
 			return
 		}
 		// the run in flight killed the process
+		if killedByWatchdog && curLegClosed {
+			if sites := deadlockSites(stderr.String()); sites != "" {
+				// closed world, every goroutine under test blocked for minutes: a deadlock
+				a.mu.Lock()
+				a.evals++
+				scj, class := genScenario(bin, id, tier, seed, inflight, inflightSub)
+				sig := id + " deadlock @" + sites + " [" + class + "]"
+				a.addFound(&found{simID: id, sig: sig, run: inflight, sub: inflightSub, tier: tier, scenario: scj, res: &result{Violations: []violation{{Clause: "deadlock", Site: sites, Detail: "the run made no progress for 120 s of real time and the goroutine dump shows every goroutine under test blocked:\n" + lastN(stderr.String(), 6000)}}}, crash: "deadlock"})
+				a.mu.Unlock()
+				from = inflight + step
+
+				continue
+			}
+		}
 		if killedByWatchdog {
 			// a run that exceeded the real-time watchdog is inconclusive (the machine may be
 			// loaded), not a verdict; too many of them turn the check into exit 2
@@ -536,6 +563,53 @@ func runWorker(bin, id, tier string, seed uint64, from, to, step int, budget tim
 			from = inflight + step
 		}
 	}
+}
+
+var goroutineHdrRe = regexp.MustCompile(`(?m)^goroutine \d+ (?:gp=\S+ m=\S+ (?:mp=\S+ )?)?\[([^\]]*)\]:$`)
+
+// deadlockSites inspects a SIGQUIT goroutine dump: if at least two goroutines with library frames
+// exist, all of them have been blocked on a mutex or a channel for minutes and at least one waits
+// for a mutex, it returns their innermost library frames ("a <-> b"); otherwise "".
+func deadlockSites(dump string) string {
+	i := strings.Index(dump, "SIGQUIT")
+	if i < 0 {
+		return ""
+	}
+	dump = dump[i:]
+	locs := goroutineHdrRe.FindAllStringSubmatchIndex(dump, -1)
+	var sites []string
+	mutex := false
+	for k, l := range locs {
+		end := len(dump)
+		if k+1 < len(locs) {
+			end = locs[k+1][0]
+		}
+		body := dump[l[1]:end]
+		fm := frameRe.FindStringSubmatch(body)
+		if fm == nil {
+			continue // no library frame: harness or runtime goroutine
+		}
+		state := dump[l[2]:l[3]]
+		blocked := false
+		for _, w := range []string{"sync.Mutex.Lock", "sync.RWMutex.Lock", "sync.RWMutex.RLock", "semacquire", "chan receive", "chan send", "select"} {
+			if strings.HasPrefix(state, w) {
+				blocked = true
+			}
+		}
+		if !blocked || !strings.Contains(state, "minutes") {
+			return ""
+		}
+		if strings.Contains(state, "Mutex") || strings.HasPrefix(state, "semacquire") {
+			mutex = true
+		}
+		sites = append(sites, fm[1])
+	}
+	if len(sites) < 2 || !mutex {
+		return ""
+	}
+	sort.Strings(sites)
+
+	return strings.Join(sites, " <-> ")
 }
 
 // isRaceTier reports whether a tier string names a race-detector leg ("quick:R", "quick:NR").
@@ -806,6 +880,7 @@ func check(id, tier string) int {
 	cores := runtime.NumCPU()
 	legInfo := map[string]int{}
 	for _, lg := range m.Legs {
+		curLegClosed = lg.Closed
 		lbin := bin
 		if lg.Race {
 			lbin, err = build(scratch, true)
@@ -983,27 +1058,27 @@ func writeEvidence(id, tier string, seed uint64, m *meta, a *agg, wall float64, 
 		samples = append(samples, "no clean sample captured in this run")
 	}
 	cov := map[string]interface{}{
-		"evaluations":                   a.evals,
-		"distinct_nontrivial":           len(a.nontrivial),
-		"rule":                          m.Rule,
-		"samples":                       samples,
-		"runs_per_hour":                 int(float64(a.evals) / wall * 3600),
-		"seeds_per_hour":                int(float64(a.evals) / wall * 3600),
-		"seeds_rule":                    "one derived seed per run: H(VERIF_SEED, property, run index[, sub-run])",
-		"simulated_time_s":              float64(a.simNS) / 1e9,
-		"controller_steps":              a.steps,
-		"steps_with_scheduling_choice":  a.ties,
-		"distinct_interleavings":        len(a.scheds),
-		"distinct_interleavings_rule":   "number of distinct digests of the released (goroutine role, hook point) sequence",
-		"distinct_scenario_shapes":      len(a.shapes),
-		"faults_fired":                  a.faults,
-		"reach_probes":                  a.probes,
-		"components":                    m.Components,
-		"runs_per_leg":                  legs,
-		"inconclusive_runs":             a.inconcl,
-		"worker_crashes_attributed":     a.crashes,
-		"known_or_unlisted_signatures":  len(a.found),
-		"exhaustive":                    false,
+		"evaluations":                  a.evals,
+		"distinct_nontrivial":          len(a.nontrivial),
+		"rule":                         m.Rule,
+		"samples":                      samples,
+		"runs_per_hour":                int(float64(a.evals) / wall * 3600),
+		"seeds_per_hour":               int(float64(a.evals) / wall * 3600),
+		"seeds_rule":                   "one derived seed per run: H(VERIF_SEED, property, run index[, sub-run])",
+		"simulated_time_s":             float64(a.simNS) / 1e9,
+		"controller_steps":             a.steps,
+		"steps_with_scheduling_choice": a.ties,
+		"distinct_interleavings":       len(a.scheds),
+		"distinct_interleavings_rule":  "number of distinct digests of the released (goroutine role, hook point) sequence",
+		"distinct_scenario_shapes":     len(a.shapes),
+		"faults_fired":                 a.faults,
+		"reach_probes":                 a.probes,
+		"components":                   m.Components,
+		"runs_per_leg":                 legs,
+		"inconclusive_runs":            a.inconcl,
+		"worker_crashes_attributed":    a.crashes,
+		"known_or_unlisted_signatures": len(a.found),
+		"exhaustive":                   false,
 	}
 	if len(a.pairs) > 0 {
 		both := 0
